@@ -57,6 +57,7 @@ properties! {
     "C14" => c14,
     "C15" => c15,
     "C16" => c16,
+    "C17" => c17,
     "C18" => c18,
     "C20" => c20,
 }
@@ -68,6 +69,7 @@ pub fn probes(ctx: &Ctx, id: &str) -> Vec<Probe> {
         "C10" => c10::probes(ctx),
         "C12" => c12::probes(ctx),
         "C15" => c15::probes(ctx),
+        "C17" => c17::probes(ctx),
         "C18" => c18::probes(ctx),
         "C20" => c20::probes(ctx),
         _ => vec![],
